@@ -39,7 +39,9 @@ ASSUMPTIONS = [
 EXPLANATION = ("theorems for every oracle and every history: delivery implies an oracle-accepted signature over exactly the "
                "delivered payload and its header information under a ticket chained to a configured root; unsecured, "
                "unknown-digest and self-made-chain frames are dropped; received frames never change the trusted roots; the "
-               "any-bit-altered clause as a reduction to the ECDSA assumption. Correspondence on mutated genuine packets "
+               "any-bit-altered clause as a reduction to the ECDSA assumption; a certificate is judged under the key of the "
+               "certificate its issuer field designates and under no other, whatever verified before. Correspondence on mutated "
+               "genuine packets "
                "from a real secured Router (bit flips, substitutions, truncations, extensions, structure-level mutations, "
                "attacker chains, arbitrary orders)")
 
@@ -489,6 +491,129 @@ def validity_unit_sequences(ctx, net: Net, frames: dict, durations):
 
 
 # ---------------------------------------------------------------------------
+# issuer designation of a certificate (not covered by the certificate's signature): every certificate body under every
+# issuer label, in every order
+
+RELABEL_CAP = 64
+
+
+def issuer_relabel_bodies(net: Net):
+    """certificate bodies (toBeSigned + signature made with ONE key) and the issuer designations they are shown under. The
+    `issuer` field of an IEEE 1609.2 certificate is outside the signed bytes, so a (body, signature) pair that verifies under
+    SOME key - its own, the attacker's AA / root, the genuine AA - can be re-encoded under every designation; it may only
+    be accepted under the one whose key made the signature (quantifier: certificate fields re-encoded x attacker keys and
+    chains x every order). Fresh keys per run: nothing an earlier phase showed concerns these bodies."""
+    net.extras()
+    n = its_now_s()
+    labels = {"self": ("self", "sha256"), "aa": ("sha256AndDigest", sc.hashed_id8(net.aa[0])),
+              "root": ("sha256AndDigest", sc.hashed_id8(net.root[0])),
+              "xaa": ("sha256AndDigest", sc.hashed_id8(net.xaa[0])),
+              "xroot": ("sha256AndDigest", sc.hashed_id8(net.xroot[0]))}
+
+    def body(signed_by, true_label, app=U, issue=None, name=None):
+        k = net.pki.new_key()
+        tbs = sc.make_tbs(name, app, issue, n - 1000, ("hours", 24), net.pki.pub(k))
+        c = sc.make_cert(net.pki, tbs, labels[true_label], k if signed_by is None else signed_by[1])
+        return {"cert": c, "key": k, "true": true_label}
+    out = {"ownkey_ticket": body(None, "self"),              # 'ticket' signed with its own key
+           "xaa_ticket": body(net.xaa, "xaa"),               # ticket of the attacker's AA
+           "xroot_ticket": body(net.xroot, "xroot"),         # ticket issued by the attacker's root directly
+           "genuine_ticket": body(net.aa, "aa")}             # ticket of an honest station, issued by the genuine AA
+    # authority signed with its own key, and (per designation: the HashedId8 covers the issuer field) a ticket under it
+    out["ownkey_authority"] = body(None, "self", app=[36], issue=[("all", 1)], name="relabel-aa")
+    return labels, out
+
+
+def relabelled(cert: dict, issuer_field) -> dict:
+    d = copy.deepcopy(cert)
+    d["issuer"] = issuer_field
+    return d
+
+
+def issuer_relabel_sequences(ctx, net: Net, frames: dict, sender):
+    """-> {body name: {label: [(tag, frame), ...]}} and the true label of every body. Ticket bodies: message signed with
+    the body's key, signer in certificate form and in digest form; under the true designation also the certificate-form
+    message itself (same to-be-signed bytes, same signature) re-attributed to the sender's ticket. Authority body: as the only certificate of the signer, as
+    second / second-of-three certificate of the signer with a ticket issued under that very designation, and offered in the
+    signed requestedCertificate field of a holder-signed CAM followed by that ticket (certificate, digest)."""
+    rng = ctx.rng
+    labels, bodies = issuer_relabel_bodies(net)
+    basic = frames["cam_cert"][:4]
+    plain = sc.dec_data(frames["cam_cert"][4:])["content"][1]["tbsData"]["payload"]["data"]["content"][1]
+    gen = sc.gen_time_us()
+    cnt = [0]
+    last = [None]
+
+    def pl():
+        return plain[:-4] + bytes(rng.randrange(256) for _ in range(4))
+
+    def msg(key, signer, honest_ticket=None, extra=None):
+        cnt[0] += 1
+        d = sc.signed_message(net.pki, key, signer, 36, gen + cnt[0], pl(), extra)
+        frame = basic + sc.enc_data(d)
+        last[0] = d
+        if honest_ticket is not None:
+            sd = d["content"][1]
+            net.genuine.append((sc.enc_tbs_data(sd["tbsData"]), sc.sig_rs(sd["signature"]), sc.hashed_id8(honest_ticket)))
+            net.genuine_frames.append(frame)
+        return frame
+
+    def reattributed(d, signer):
+        """the same to-be-signed bytes and signature under another signer designation (the signer field, too, is outside
+        the signed bytes)"""
+        d = copy.deepcopy(d)
+        d["content"][1]["signer"] = signer
+        return basic + sc.enc_data(d)
+    out, true = {}, {}
+    for bname, b in bodies.items():
+        true[bname] = b["true"]
+        out[bname] = {}
+        for lab, field in labels.items():
+            if bname == "ownkey_authority" and lab in ("xaa", "xroot"):
+                continue
+            c = relabelled(b["cert"], field)
+            # under its true designation a ticket of a (second) PKI is an honest station's ticket where that PKI is trusted
+            honest = c if (lab == b["true"] and lab != "self") else None
+            fr = [((f"relabel_{bname}_as_{lab}_certificate", "relabel"), msg(b["key"], ("certificate", [c]), honest))]
+            if bname != "ownkey_authority":
+                if lab == b["true"]:
+                    # what verified under this ticket, re-attributed to the sender's ticket (digest, certificate)
+                    own = sender["own"][0]
+                    fr.append(((f"relabel_{bname}_as_{lab}_message_reattributed_digest", "relabel"),
+                               reattributed(last[0], ("digest", sc.hashed_id8(own)))))
+                    fr.append(((f"relabel_{bname}_as_{lab}_message_reattributed_certificate", "relabel"),
+                               reattributed(last[0], ("certificate", [own]))))
+                fr.append(((f"relabel_{bname}_as_{lab}_digest", "relabel"),
+                           msg(b["key"], ("digest", sc.hashed_id8(c)), honest)))
+            else:
+                kt = net.pki.new_key()
+                tbs = sc.make_tbs(None, U, None, its_now_s() - 1000, ("hours", 24), net.pki.pub(kt))
+                t = sc.make_cert(net.pki, tbs, ("sha256AndDigest", sc.hashed_id8(c)), b["key"])
+                fr.append(((f"relabel_{bname}_as_{lab}_chain2", "relabel"), msg(kt, ("certificate", [t, c]))))
+                fr.append(((f"relabel_{bname}_as_{lab}_chain3", "relabel"), msg(kt, ("certificate", [t, c, net.root[0]]))))
+                fr.append(((f"relabel_{bname}_as_{lab}_requested", "relabel"),
+                           msg(sender["own"][1], ("certificate", [sender["own"][0]]), sender["own"][0],
+                               {"requestedCertificate": c})))
+                fr.append(((f"relabel_{bname}_as_{lab}_ticket_certificate", "relabel"), msg(kt, ("certificate", [t]))))
+                fr.append(((f"relabel_{bname}_as_{lab}_ticket_digest", "relabel"), msg(kt, ("digest", sc.hashed_id8(t)))))
+            out[bname][lab] = fr
+    return out, true
+
+
+def relabel_orders(ctx, by_label: dict, true_label: str, n_random: int):
+    """orders of one body's frames: every other designation BEFORE the true one and again after it (nothing learnt while
+    the body verified under its own designation may carry over); the true one first; seeded random interleavings of all"""
+    others = [f for lab, fr in by_label.items() if lab != true_label for f in fr]
+    own = list(by_label[true_label])
+    yield "others_true_others", others + own + others
+    yield "true_others_true", own + others + own
+    for k in range(n_random):
+        seq = others + own + others + own
+        ctx.rng.shuffle(seq)
+        yield f"random{k}", seq
+
+
+# ---------------------------------------------------------------------------
 # audit round: real stations exchanging messages (peer-to-peer certificate distribution across two PKI domains)
 
 EXCHANGE_SCRIPT = [("P", "cam", 100), ("X", "cam", 100), ("V", "cam", 100), ("P", "cam", 100), ("X", "cam", 1500),
@@ -677,8 +802,12 @@ class RxTrace:
     """one station under observation: frames it receives (oracle on every frame) and messages it sends itself; the whole
     history is replayed on the model at the end"""
 
-    def __init__(self, ctx, net: Net, rcv, kind, notes, compare_model=True):
+    def __init__(self, ctx, net: Net, rcv, kind, notes, compare_model=True, full_prefix=0):
+        """full_prefix = n > 0: the replay prefix of a failure holds EVERY frame this station received before (at most n), not
+        only those that were delivered or changed the store - for sequences whose point is that a rejected frame must leave
+        nothing behind"""
         self.ctx, self.net, self.rcv, self.kind, self.notes = ctx, net, rcv, kind, notes
+        self.full_prefix = full_prefix
         self.link_cache = {}
         self.flat_ops = [list(o) for o in rcv["setup"]]
         self.n_setup = len(self.flat_ops)
@@ -690,13 +819,16 @@ class RxTrace:
         ctx, rcv, reg, kind = self.ctx, self.rcv, self.rcv["reg"], self.kind
         lib = rcv["st"].lib
         inp = {"receiver": {"enabled": rcv["enabled"], "with_vs": rcv["with_vs"], "known": rcv.get("known_desc", ""),
-                            "with_sign": rcv.get("with_sign", True)},
+                            "with_sign": rcv.get("with_sign", True), "domains": rcv.get("domains", 1)},
                "mutation": tag, "frame": frame.hex(), "kind": kind, "clock_ms": VCLOCK.ms, "prefix": list(self.prefix)}
         sizes = (len(lib.known_authorization_tickets), len(lib.known_authorization_authorities),
                  sorted(lib.known_root_certificates.keys()))
         obs = feed(rcv, frame)
-        if (obs[0] == "deliver" or sizes != (len(lib.known_authorization_tickets), len(lib.known_authorization_authorities),
-                                             sorted(lib.known_root_certificates.keys()))) and len(self.prefix) < 40:
+        if self.full_prefix:
+            if len(self.prefix) < self.full_prefix:
+                self.prefix.append(frame.hex())
+        elif (obs[0] == "deliver" or sizes != (len(lib.known_authorization_tickets), len(lib.known_authorization_authorities),
+                                               sorted(lib.known_root_certificates.keys()))) and len(self.prefix) < 40:
             self.prefix.append(frame.hex())
         oracle(ctx, self.net, rcv, frame, obs, inp, self.link_cache, self.notes)
         if rcv["enabled"]:
@@ -771,12 +903,21 @@ class RxTrace:
         return [r for r, _ in impl]
 
 
-def run_sequence(ctx, net: Net, rcv, seq, kind, notes):
+def run_sequence(ctx, net: Net, rcv, seq, kind, notes, full_prefix=0):
     """seq: list of (mutation tag, frame bytes); feeds them in order; compares with the model"""
-    tr = RxTrace(ctx, net, rcv, kind, notes)
+    tr = RxTrace(ctx, net, rcv, kind, notes, full_prefix=full_prefix)
     for tag, frame in seq:
         tr.feed(tag, frame)
     return tr.finish()
+
+
+def two_domain_station(net: Net, mid, **kw):
+    """a station whose operator configured two PKI domains (the genuine one and the second root with its AA): what the second
+    domain issued is legitimately accepted there - under the designation whose key signed it, and under no other"""
+    r = net.station(mid, roots=[net.root, net.xroot], aas=[(net.aa, net.root), (net.xaa, net.xroot)], **kw)
+    r["known_desc"] = "two PKI domains"
+    r["domains"] = 2
+    return r
 
 
 def receivers(net: Net, sender, base_mid, more=False):
@@ -805,8 +946,13 @@ def run(ctx):
                 "real receiving Routers that know root+AA only or also the sender's ticket, with security enabled / "
                 "disabled / without a VerifyService. Oracle: anything reaching process_common_header or the indication "
                 "callback must verify independently (ecdsa/hashlib) under a ticket chained to the configured root and be "
-                "one of the honest signatures. Non-trivial = frame decoded as signed data (rejected) or delivered; "
-                "distinct by frame bytes")
+                "one of the honest signatures. Every certificate body (to-be-signed bytes + signature made with its own key / "
+                "the attacker's AA / the attacker's root / the genuine AA; ticket and authority profile) is also shown under "
+                "every issuer designation (self, genuine AA, genuine root, attacker AA, attacker root) - the field is outside "
+                "the certificate's signed bytes - as certificate and digest signer, as 2nd of 2 / 3 certificates and as "
+                "requestedCertificate, the other designations before and after the one whose key signed it and in seeded "
+                "random orders, also at a station configured with both PKI domains. Non-trivial = frame decoded as signed "
+                "data (rejected) or delivered; distinct by frame bytes")
     sc.coder()
     quick = ctx.tier == "quick"
     notes = {}
@@ -851,6 +997,25 @@ def run(ctx):
     for rcv in receivers(net, sender, mid, more=True):
         run_sequence(ctx, net, rcv, audit_inner + audit_units, "inner+validity", notes)
         mid += 16
+    # 2b'. every certificate body under every issuer designation, in every order (replay prefix = the whole sequence)
+    relabel, relabel_true = issuer_relabel_sequences(ctx, net, frames, sender)
+    for bname, by_label in relabel.items():
+        orders = list(relabel_orders(ctx, by_label, relabel_true[bname], 1 if quick else 4))
+        rcvs = receivers(net, sender, mid, more=True) + [two_domain_station(net, mid + 4)]
+        mid += 16
+        if quick:
+            # root+AA: others first; root+AA+sender ticket: true first; no SignService: random; two domains: true first
+            plan = [(rcvs[0], orders[0]), (rcvs[1], orders[1]), (rcvs[2], orders[2]), (rcvs[3], orders[1])]
+        else:
+            plan = []
+            for o in orders:
+                rs = receivers(net, sender, mid, more=True) + [two_domain_station(net, mid + 4)]
+                mid += 16
+                plan += [(r, o) for r in rs]
+        cut = len(f"relabel_{bname}_")
+        for rcv, (oname, seq) in plan:
+            run_sequence(ctx, net, rcv, [((m[0][cut:], bname, oname), f) for m, f in seq], f"relabel:{bname}", notes,
+                         full_prefix=RELABEL_CAP)
     # 2c. audit round: real stations in two PKI domains exchanging messages (trust anchors must not be learnt in-band)
     for direct, p_has_xaa in ((True, False), (False, True), (True, True), (False, False)):
         p2pcd_exchange(ctx, net, notes, mid, direct, p_has_xaa, EXCHANGE_SCRIPT, f"scripted/{int(direct)}{int(p_has_xaa)}")
@@ -862,6 +1027,7 @@ def run(ctx):
     # 3. arbitrary orders of genuine and forged packets
     pool = [(("genuine", k), v) for k, v in frames.items()] * 3 + [(("genuine_other", k), v) for k, v in other_frames.items()]
     forged = [((m[1], m[0]), f) for m, f in smut] + [((m[1], m[0]), f) for m, f in audit + audit_inner + audit_units]
+    forged += [((m[1], m[0]), f) for by_label in relabel.values() for fr in by_label.values() for m, f in fr]
     for it in range(6 if quick else 60):
         seq = []
         for _ in range(60 if quick else 120):
@@ -906,9 +1072,13 @@ def replay_input(ctx, rec, kind):
     net.genuine = None
     VCLOCK.set_ms(inp["clock_ms"])
     r = inp["receiver"]
-    rcv = net.station(0x0A0B0C0DAA01, known=[sender_ticket] if "ticket" in r.get("known", "") else (),
-                      enabled=r["enabled"], with_vs=r["with_vs"], with_sign_service=r.get("with_sign", True))
-    rcv["known_desc"] = r.get("known", "")
+    if r.get("domains", 1) == 2:
+        rcv = two_domain_station(net, 0x0A0B0C0DAA01, enabled=r["enabled"], with_vs=r["with_vs"],
+                                 with_sign_service=r.get("with_sign", True))
+    else:
+        rcv = net.station(0x0A0B0C0DAA01, known=[sender_ticket] if "ticket" in r.get("known", "") else (),
+                          enabled=r["enabled"], with_vs=r["with_vs"], with_sign_service=r.get("with_sign", True))
+        rcv["known_desc"] = r.get("known", "")
     seq = [(("prefix", i), bytes.fromhex(h)) for i, h in enumerate(inp.get("prefix", []))]
     seq.append((tuple(inp["mutation"]) if isinstance(inp["mutation"], list) else inp["mutation"], bytes.fromhex(inp["frame"])))
     outcomes = run_sequence(ctx, net, rcv, seq, kind, {})
